@@ -69,6 +69,13 @@ class Check:
     def ob(self, rule: str, func: str, construct: str, where: str, ok: bool, detail: str = "",
            expected: str = None, found: str = None, sample=False, config: str = None):
         """Register one obligation. (rule, func, construct) is the key of the finding."""
+        sample = bool(sample) and len(self.samples) < 12
+        if callable(expected):
+            expected = expected() if (not ok or sample) else None
+        if callable(found):
+            found = found() if (not ok or sample) else None
+        if callable(detail):
+            detail = detail() if not ok else ""
         rec = {"rule": rule, "function": func, "construct": construct, "where": where, "ok": bool(ok)}
         if detail:
             rec["detail"] = detail
